@@ -16,6 +16,8 @@ JudgeEvent(e) ==
     [] e.kind = "acyclic_unroll_acyclic" -> Judge_acyclic_unroll_acyclic(e)
     [] e.kind = "miter" -> Judge_miter(e)
     [] e.kind = "ternary" -> Judge_ternary(e)
+    [] e.kind = "unroll" -> Judge_unroll(e)
+    [] e.kind = "sequential_unroll" -> Judge_sequential_unroll(e)
     [] e.kind = "cnf"          -> Judge_cnf(e)
     [] e.kind = "solve"        -> Judge_solve(e)
     [] e.kind = "model_count"  -> Judge_model_count(e)
